@@ -16,7 +16,6 @@ import ast
 from .model import AnalysisError, own_nodes, own_nodes_ordered, is_name, is_self_attr, norm, parents
 from .cfg import ExcMatcher
 
-CELL = ('_is_bound', '_value')
 MUTATORS = ('append', 'add', 'update', 'extend', 'insert', 'setdefault', 'pop', 'remove', 'discard', 'clear', 'popitem', 'appendleft')
 
 
@@ -66,7 +65,7 @@ def binding_predicates(em):
                        (isinstance(r.value, ast.Call) and isinstance(r.value.func, ast.Name) and r.value.func.id in ('all', 'any', 'bool', 'isinstance'))
                        for r in rets):
                 continue            # only attribute reads / delegations: not evidently a truth value
-            reads = any(isinstance(x, ast.Attribute) and x.attr == '_is_bound' and isinstance(x.ctx, ast.Load) for x in own_nodes(f.node))
+            reads = any(isinstance(x, ast.Attribute) and x.attr == em.cell().state_field and isinstance(x.ctx, ast.Load) for x in own_nodes(f.node))
             calls = any(isinstance(x, ast.Call) and ((isinstance(x.func, ast.Name) and any(g.name == x.func.id and g.cls is None for g in fam)) or
                                                    (isinstance(x.func, ast.Attribute) and any(g.name == x.func.attr and g.cls is not None for g in fam)))
                         for x in own_nodes(f.node))
@@ -88,13 +87,13 @@ def rule_no_cached_binding_state(em, rep, rid):
             if not isinstance(s, (ast.Assign, ast.AugAssign, ast.AnnAssign)):
                 continue
             tg = s.targets if isinstance(s, ast.Assign) else [s.target]
-            flds = [t for t in tg if isinstance(t, ast.Attribute) and t.attr not in CELL]
+            flds = [t for t in tg if isinstance(t, ast.Attribute) and t.attr not in em.cell().fields]
             if not flds or s.value is None:
                 continue
             n += 1
             bad = None
             for x in ast.walk(s.value):
-                if isinstance(x, ast.Attribute) and x.attr == '_is_bound' and isinstance(x.ctx, ast.Load):
+                if isinstance(x, ast.Attribute) and x.attr == em.cell().state_field and isinstance(x.ctx, ast.Load):
                     bad = x
                 if isinstance(x, ast.Call) and ((isinstance(x.func, ast.Name) and x.func.id in names) or
                                                 (isinstance(x.func, ast.Attribute) and x.func.attr in names and x.func.attr not in ('get_value',))):
@@ -118,7 +117,7 @@ def rule_no_dereferenced_value_cached(em, rep, rid):
     funcs = list(em.repo.all_functions(('engine',)))
 
     def reads_cell(e):
-        return any((isinstance(x, ast.Attribute) and x.attr in CELL and isinstance(x.ctx, ast.Load)) or is_deref_call(x) for x in ast.walk(e))
+        return any((isinstance(x, ast.Attribute) and x.attr in em.cell().fields and isinstance(x.ctx, ast.Load)) or is_deref_call(x) for x in ast.walk(e))
     # helpers whose result is (built from) a dereferenced value
     deref_like = set()
     changed = True
@@ -139,7 +138,7 @@ def rule_no_dereferenced_value_cached(em, rep, rid):
             if not isinstance(s_, (ast.Assign, ast.AugAssign, ast.AnnAssign)) or s_.value is None:
                 continue
             tg = s_.targets if isinstance(s_, ast.Assign) else [s_.target]
-            flds = [t for t in tg if isinstance(t, ast.Attribute) and t.attr not in CELL]
+            flds = [t for t in tg if isinstance(t, ast.Attribute) and t.attr not in em.cell().fields]
             if not flds:
                 continue
             n += 1
